@@ -27,7 +27,7 @@ RULE = ('scenarios: trash-restore (single / multi index; file, deep directory, s
 ASSUMPTIONS = ['kill = SIGKILL between two system calls; no power loss', 'restore destinations are free (clobbering is C06)']
 PROBES = ['crash-states', 'restore-scenarios', 'empty-scenarios', 'rm-scenarios', 'cross-volume-restore', 'killed-mid-copy', 'killed-mid-rmtree',
           'killed-between-payload-and-info', 'recovery-rerun-completed', 'recovery-empty-after-restore', 'history-order-checked',
-          'history-names-a-crash-point', 'thousands-of-entries', 'retry-with-overwrite-after-kill']
+          'history-names-a-crash-point', 'thousands-of-entries', 'retry-with-overwrite-after-kill', 'overwrite-onto-occupied-destination']
 TECHNIQUE = 'deterministic simulation with crash injection enumerated over every mutating op of seeded restore/empty/rm scenarios; crash-state invariant + recovery'
 LEVEL_TEXT = 'crash points enumerated completely per sampled scenario; scenarios sampled by seed'
 LEVEL_NOTE = 'trusted: sticky-kill model, snapshot function, model/bag.py'
@@ -43,6 +43,10 @@ def gen(rng):
     n = rng.choice([1, 2, 3, 4])
     cross = False
     twins = [0]
+    # trash-restore --overwrite onto occupied destinations: another file, or ANOTHER NAME (hard link) of the very payload - the
+    # file had two names, one was trashed and later recreated from the other with ln / cp -l / a snapshot tool
+    ow = cmd == 'trash-restore' and rng.random() < 0.15
+    occupied = 0
     for i in range(n):
         tdir, top, _u = rng.choice(locs)
         nm = 'ent%d' % i
@@ -58,7 +62,9 @@ def gen(rng):
             loc = (home + '/w/' + nm) if other == '/' else (L['work'][other] + '/' + nm)
             pv = TG.pct(loc)
             cross = True
+            _crossed = True
         else:
+            _crossed = False
             loc = (home + '/w/' + nm) if top is None else (L['work'][top] + '/' + nm)
             pv = TG.pct(loc if top is None else loc[len(top) + 1:])
         date = '20%02d-01-01T00:00:00' % rng.randint(10, 24)
@@ -71,16 +77,24 @@ def gen(rng):
             steps.append(['d', base + '/empty', 0o700])
         else:
             G.add_trashed(steps, tdir, nm, pv, date, kind, tag=str(i))
-        if cmd == 'trash-restore' and rng.random() < 0.2:
+        if ow and kind == 'file' and rng.random() < 0.7:
+            if rng.random() < 0.6 and not _crossed:
+                steps.append(['h', loc, tdir + '/files/' + nm])
+            else:
+                steps.append(['f', loc, 'somebody else took the place', 0o644, 1_220_000_000 + i])
+            occupied += 1
+        if cmd == 'trash-restore' and not ow and rng.random() < 0.2:
             # an older generation of the same path: selected together, the second one finds its destination taken and stays
             G.add_trashed(steps, tdir, nm + '_1', pv, '20%02d-06-06T06:06:06' % rng.randint(10, 24), rng.choice(['file', 'dir', 'link']), tag='%d-older' % i)
             twins[0] += 1
-    if cmd in ('trash-empty', 'trash-rm') and rng.random() < 0.02:
+    abyss = False
+    if cmd in ('trash-empty', 'trash-rm') and rng.random() < 0.01:
         # an entry nested deeper than the interpreter's recursion limit: shutil.rmtree gives up on it with RecursionError;
         # whatever the command does then, the payload that is still there keeps its .trashinfo
         tdir = locs[0][0]
         G.add_trashed(steps, tdir, 'entabyss', TG.pct(home + '/w/entabyss'), '2011-01-01T00:00:00', 'dir', tag='abyss')
         steps.append(['d', tdir + '/files/entabyss' + '/d' * 1100, 0o755])
+        abyss = True
     many = 0
     if cmd in ('trash-empty', 'trash-rm') and rng.random() < 0.01:
         # hundreds or thousands of entries in one trash directory, just past a round number: an implementation that works in
@@ -99,7 +113,7 @@ def gen(rng):
         sel = list(range(n + twins[0]))
         rng.shuffle(sel)
         sel = sel[:rng.randint(1, n + twins[0])]
-        argv = ['trash-restore', '--sort=path', '/']
+        argv = ['trash-restore', '--sort=path'] + (['--overwrite'] if ow else []) + ['/']
         spec = {'argv': argv, 'env': env, 'cwd': '/', 'uid': uid, 'stdin': ','.join(map(str, sel)) + '\n'}
     elif cmd == 'trash-empty':
         argv = ['trash-empty'] + rng.choice([[], [], ['1'], ['4000'], ['-v'], ['-vv']])
@@ -112,10 +126,12 @@ def gen(rng):
         'procs': [spec],
         'dirsalt': rng.randrange(1 << 30),
         'clock': {'start': '2025-03-03T03:03:03.000000'},
-        'note': {'cmd': cmd, 'cross': cross, 'many': many},
+        'note': {'cmd': cmd, 'cross': cross, 'many': many, 'occupied': occupied},
     }
     if many:
         case_['crash_sample'] = 4
+    if abyss:
+        case_['crash_sample'] = 4        # (its removal alone takes thousands of operations)
     return case_
 
 
@@ -166,6 +182,17 @@ def check(sim, case, st):
                 if hot:
                     case['crash_extra'] = [h[0] for h in hot[:3]]
                     st.probes['history-names-a-crash-point'] += 1
+            if note.get('occupied'):
+                st.probes['overwrite-onto-occupied-destination'] += 1
+            # the end of the undisturbed run is a position like any other: no payload without its info
+            for e in bag0:
+                rt = ML.resolve(snap, e.tdir)
+                if rt is not None and e.has_payload and (rt + '/files/' + e.name) in snap and (rt + '/info/' + e.name + '.trashinfo') not in snap:
+                    pt = OR.payload_tree(before, e).get('')
+                    sig = 'C15/payload-stranded-without-info/%s/%s/%s/end' % (cmd, {'f': 'file', 'd': 'dir', 'l': 'symlink'}.get(pt[0], 'x') if pt else 'nopayload',
+                                                                           'cross' if note.get('cross') else 'same')
+                    res.append((sig, 'at the end of the undisturbed run payload %s/files/%s is still there but its .trashinfo is gone (argv %r stdin %r)'
+                                % (e.tdir, e.name, spec['argv'], spec.get('stdin'))))
             if note.get('many'):
                 st.probes['thousands-of-entries'] += 1
             if note.get('cross'):
